@@ -49,6 +49,9 @@ def gen(rng, tier):
         'handler_pause': rng.random() < 0.3,
         # another client keeps the namespace alive
         'bystander': rng.random() < 0.5,
+        # the namespace has already seen another client come and be
+        # disconnected (sequentially) before the concurrent terminations
+        'prior_round': rng.random() < 0.4,
     }
     # optionally one more application thread uses the same session id in a
     # non-terminating call while it is being terminated (only at access
@@ -143,6 +146,18 @@ def _run(case, cfg, w):
             if cfg['rooms']:
                 srv.enter_room(other.rx[-1]['pkt'].data['sid'], 'r1',
                                namespace=ns)
+    if cfg.get('prior_round'):
+        first = w.add_peer('s')
+        first.open()
+        w.settle()
+        for ns in nss:
+            first.send_pkt(sio.CONNECT, ns, None, None)
+            w.settle()
+            fs = first.rx[-1]['pkt'].data['sid']
+            w.call(srv.disconnect, fs, namespace=ns)
+            w.settle()
+        first.sever(0.0)
+        w.settle()
     eio_sid = peer.eio_sid
     # from here on every manager / transport access is a pre-emption point
     real_manager = srv.manager
